@@ -97,6 +97,7 @@ pub fn hs_body(m: &Item) -> Vec<u8> {
             put_u16(&mut v, m.u("cipher"));
             v.push(m.u("comp") as u8);
             opt_ext(&mut v, m);
+            v.extend_from_slice(m.b("_trail"));
         }
         "server_hello_d18" => {
             put_u16(&mut v, m.u("ver"));
